@@ -313,6 +313,12 @@ def gen_consts():
         gt = fn_body(ffi, "fn get_table(", "ffi/src/lib.rs")
         out.append("Definition FFI_GET_TABLE_EXPECTS : bool := %s.  (* get_table calls expect()/unwrap() on the select result *)"
                    % boolean(re.search(r"\.(expect|unwrap)\(", strip_comments(gt))))
+    with attempt("FFI_INFO_TIME_UNGUARDED"):
+        ffi = strip_tests(src("ffi/src/lib.rs"))
+        gi = strip_comments(fn_body(ffi, "fn get_information(", "ffi/src/lib.rs"))
+        unguarded = "to_rfc2822" in gi and not re.search(r"\.year\(\)\s*(<=|<|>=|>)\s*\d", gi)
+        out.append("Definition FFI_INFO_TIME_UNGUARDED : bool := %s.  (* get_information calls to_rfc2822 (panics beyond the year 9999) without a guard on the year *)"
+                   % boolean(unguarded))
     return "\n".join(out) + "\n"
 
 
